@@ -271,7 +271,7 @@ macro_rules! numtype {
 pub fn run(cfg: &Cfg, rep: &mut Report) {
     let n = cfg.n(200, 20_000_000, 1_200_000_000);
     run_cases(cfg, "numeric_value", n, rep, |rng, ctx| {
-        match ctx.index % 14 {
+        match ctx.index % 15 {
             0 => numtype!(ctx, rng, u8, "u8", |a: &u8, b: &u8| a == b, |x: f64| x.abs().min(255.0) as u8, <u8>::MIN, <u8>::MAX),
             1 => numtype!(ctx, rng, i8, "i8", |a: &i8, b: &i8| a == b, |x: f64| x.clamp(-128.0, 127.0) as i8, <i8>::MIN, <i8>::MAX),
             2 => numtype!(ctx, rng, u16, "u16", |a: &u16, b: &u16| a == b, |x: f64| x.abs() as u16, <u16>::MIN, <u16>::MAX),
@@ -284,6 +284,11 @@ pub fn run(cfg: &Cfg, rep: &mut Report) {
             9 => numtype!(ctx, rng, isize, "isize", |a: &isize, b: &isize| a == b, |x: f64| x as isize, <isize>::MIN, <isize>::MAX),
             10 => numtype!(ctx, rng, f32, "f32", |a: &f32, b: &f32| a.to_bits() == b.to_bits(), |x: f64| x as f32, <f32>::MIN, <f32>::MAX),
             11 => numtype!(ctx, rng, f64, "f64", |a: &f64, b: &f64| a.to_bits() == b.to_bits(), |x: f64| x, <f64>::MIN, <f64>::MAX),
+            14 => {
+                use scpi::units::uom::si::electric_potential::volt;
+                use scpi::units::uom::si::f64::ElectricPotential as V64;
+                numtype!(ctx, rng, V64, "ElectricPotential<f64>", |a: &V64, b: &V64| a.value.to_bits() == b.value.to_bits(), |x: f64| V64::new::<volt>(x), V64::new::<volt>(f64::MIN), V64::new::<volt>(f64::MAX))
+            }
             12 => numtype!(ctx, rng, Time, "Time<f32>", |a: &Time, b: &Time| a.value.to_bits() == b.value.to_bits(), |x: f64| Time::new::<second>(x as f32), Time::new::<second>(f32::MIN), Time::new::<second>(f32::MAX)),
             _ => numtype!(ctx, rng, Frequency, "Frequency<f32>", |a: &Frequency, b: &Frequency| a.value.to_bits() == b.value.to_bits(), |x: f64| Frequency::new::<hertz>(x as f32), Frequency::new::<hertz>(f32::MIN), Frequency::new::<hertz>(f32::MAX)),
         }
